@@ -149,6 +149,16 @@ func (p *Pkg) fillParseModel(m *parseModel) (kvmCall *ast.CallExpr) {
 		switch x := n.(type) {
 		case *ast.AssignStmt:
 			if len(x.Lhs) == 1 && len(x.Rhs) == 1 {
+				// obj := new(T)
+				if call, ok := x.Rhs[0].(*ast.CallExpr); ok && len(call.Args) == 1 {
+					if id, ok := call.Fun.(*ast.Ident); ok && id.Name == "new" {
+						if _, isB := info.Uses[id].(*types.Builtin); isB {
+							if tv, ok := info.Types[call.Args[0]]; ok && tv.IsType() && types.Identical(tv.Type, p.T) {
+								m.objVar = identObj(info, x.Lhs[0])
+							}
+						}
+					}
+				}
 				if u, ok := x.Rhs[0].(*ast.UnaryExpr); ok && u.Op == token.AND {
 					if cl, ok := u.X.(*ast.CompositeLit); ok {
 						if tv, ok := info.Types[cl]; ok && types.Identical(tv.Type, p.T) {
@@ -255,6 +265,14 @@ func (w *World) rulesParsePkg(p *Pkg, out *[]Obligation) {
 		if ov.Order == "fixed" {
 			acceptObl(add, fd, false, "the parser is outside the analysed shape, so it is not established that it accepts every metric sequence Vector can write: undecided")
 		}
+		// the rules that do not need the located loop still apply
+		if sm := p.SetModel(); sm.ValidateFn != nil {
+			ok, why := p.checkValidate(p.FuncObj[sm.ValidateFn])
+			add(ok, "R01.case", "validate", p.FuncObj[sm.ValidateFn], why)
+			add(ok, "R09.case", "validate", p.FuncObj[sm.ValidateFn], why)
+		}
+		w.rulesDenyList(p, add)
+		w.rulesSentinels(p, add)
 		return
 	}
 
